@@ -679,7 +679,11 @@ pub fn run_book_ledger_aliased(
         rec.count_n("assertions-evaluated", hook_asserts as u64);
     }
     for f in findings {
-        if f.prop != prop {
+        // C01 also promises that a transaction with exactly one omitted amount (or whose totals are
+        // zero) is accepted: a wrong rejection of an inferred / assigned transaction is C01's business
+        // as much as C03's.
+        let also_c01 = prop == "C01" && f.prop == "C03" && f.clause == "rejected-must-accept";
+        if f.prop != prop && !also_c01 {
             rec.count(&format!("other-property-finding:{}:{}", f.prop, f.clause));
             continue;
         }
